@@ -205,6 +205,54 @@ func runC12(c *Ctx) {
 		}
 		visit(f, 0)
 		c.check(good, "separator@Scan", f.Pos(), "labels are separated by '.' only", "the label separator is not '.': 'domain:' rules match on something other than a label boundary")
+		// D43: the normaliser agrees with the scanner on what a separator is — TrimDot cuts the trailing dot only when
+		// the escape predicate the scanner uses says it is not escaped (a name whose last label ends in "\\." keeps it)
+		if td := c.fn(relDomain, "", "TrimDot"); td != nil {
+			esc := map[*ssa.Function]bool{}
+			for g := range seenFns {
+				hasBS := false
+				eachInstr(g, func(in ssa.Instruction) {
+					if bo, ok := in.(*ssa.BinOp); ok && (bo.Op == token.EQL || bo.Op == token.NEQ) {
+						if n, isC := constInt(bo.Y); isC && n == '\\' {
+							hasBS = true
+						}
+					}
+				})
+				if hasBS {
+					esc[g] = true
+				}
+			}
+			good, n := true, 0
+			why := ""
+			eachInstr(td, func(in ssa.Instruction) {
+				sl, ok := in.(*ssa.Slice)
+				if !ok {
+					return
+				}
+				n++
+				guarded := false
+				for _, g := range guardsOfInstr(sl) {
+					v, truth := g.asBool()
+					cl, isC := v.(*ssa.Call)
+					if !isC || truth || !esc[staticCallee(cl)] || len(cl.Call.Args) != 2 || cl.Call.Args[0] != ssa.Value(td.Params[0]) {
+						continue
+					}
+					// the index asked about is the last byte: len(s) - 1
+					if bo, isB := cl.Call.Args[1].(*ssa.BinOp); isB && bo.Op == token.SUB {
+						if k, isK := constInt(bo.Y); isK && k == 1 {
+							if lc, isL := bo.X.(*ssa.Call); isL && callName(lc) == "builtin:len" && lc.Call.Args[0] == ssa.Value(td.Params[0]) {
+								guarded = true
+							}
+						}
+					}
+				}
+				if !guarded {
+					good, why = false, "the cut at "+c.P.pos(instrPos(sl))+" does not ask the scanner's escape predicate about the last byte"
+				}
+			})
+			c.check(good && n > 0 && len(esc) > 0, "trim-agrees-with-scanner@TrimDot", td.Pos(), "the trailing dot is cut only when the scanner's escape predicate says it is a separator",
+				"TrimDot cuts a trailing dot that the label scanner treats as part of the last label ("+why+"): a rule or name whose last label ends in an escaped dot (com\\.) loses it in one place and keeps it in the other — domain:com\\. does not match a.com\\. nor its own fully-qualified spelling (D43)")
+		}
 		c.check(escapeAware, "separator-unescaped@Scan", f.Pos(), "an escaped dot (part of a label) is not a separator",
 			"the label scanner splits at every '.', also at an escaped one: the name a\\.example.com. (labels \"a.example\", \"com\") matches the rule domain:example.com although it is no subdomain of it — a string suffix, not a label boundary")
 	}
